@@ -97,7 +97,19 @@ class Check:
         try:
             res = verify(E, contract, variant=variant, setup=setup)
         except SpecError as e:
-            raise
+            # the contract cannot be evaluated on this body (a name of the specification is taken by a
+            # local variable, a variable an invariant mentions is gone, the statement a slice is
+            # anchored at has moved).  On the tree the contract was written for this does not happen
+            # (the run on the unchanged tree would show it as undecided); on a changed tree it means
+            # the contract says nothing about the new body: undecided, never a crash, never a verdict
+            self.functions.append({"function": contract.key, "variant": variant, "unsupported": f"specification not evaluable: {e}"})
+            self.items.append(Item(f"{self.pid}.{contract.key.split(':')[1]}", "contract", "undecided", "pyvc",
+                                   detail={"specification-not-evaluable": str(e)[:400]}))
+            self.undecided.append(f"{contract.key}: the contract cannot be evaluated on the current body ({str(e)[:160]})")
+
+            class _Empty:
+                obligations, notes, unsupported, paths, lines, src_hash = [], [], str(e), 0, 0, None
+            return _Empty()
         fn = {"function": contract.key, "variant": variant, "source_hash": res.src_hash,
               "lines": res.lines, "paths": res.paths, "obligations": len(res.obligations)}
         self.functions.append(fn)
@@ -180,6 +192,13 @@ class Check:
                                     + ", ".join(detail.get("writes_outside_modifies", []))[:300])
                 self.undecided.append(f"{base}: {detail['reason']} -- call sites of {contract.key} are no longer "
                                       "described by its contract")
+            elif failed and base.endswith(".raises.unexpected.AssertionError"):
+                # an `assert` of the code fails for some state the precondition of this contract
+                # allows.  Asserts state invariants of the whole program (established by other
+                # functions); whether such a state is ever reached is not decided by this contract
+                status = "undecided"
+                detail["reason"] = "an assert statement is not implied by the precondition of the contract"
+                self.undecided.append(f"{base}: {detail['reason']} ({contract.key})")
             elif failed:
                 status = "failed"
                 self.handle_failed(contract, base, failed[0], replay, detail)
